@@ -50,6 +50,13 @@ CLAIMS["C14"] = ("other", "affine abstract interpretation over MIR + who-may-cal
     "'holds c well-distributed entries' (hash distribution) and power-of-two lengths (Q3, under C05).",
     "DESIGN.md §4 C14", TRUST + " x >> k is modelled as x/2^k (exact for the power-of-two lengths it is applied to).")
 
+CLAIMS["C19"] = ("other", "panic-site reachability + delegation (who-may-call) rules over MIR, features serde,rayon",
+    "Clauses: (V1) in the serde visitors no panic-family call is reachable after input has been pulled from the deserialiser, so a "
+    "repeated key or element yields a value, not a panic; (V2) the visitors build the collection through exported, guard-checked functions "
+    "with the new collection's own guard; (V3) the rayon impls only delegate to exported functions and sibling impls, with a per-worker guard "
+    "of the same map. Not decided: serialise/deserialise round-trip equality and 'same key set as sequential insertion' (run-time values).",
+    "DESIGN.md §4 C19", TRUST + " serde/rayon adaptor internals are outside the analysis.")
+
 NOT_APPLICABLE = {
     "C02": "Quantifies over all operation sequences x hashers x capacities and asserts equality of run-time values (return values, "
            "contents) with a reference map; no path-, type- or call-graph-shaped clause carries it. Its only structural clause "
